@@ -82,12 +82,16 @@ def verify_function(task):
                                             z3.BoolVal(False), qual, rec.line, "path must be infeasible under the precondition"))
                     continue
                 rst.env["result"] = rec.value
+                proved = []       # postcondition j may use postconditions 0..j-1 of the same exit (A and B  <=>  A and (A => B))
                 for j, p in enumerate(c.ensures):
                     try:
-                        g = ex.spec(p, rst)
+                        g = lit(ex.spec(p, rst))
                     except Undecided as u:
                         raise Undecided(f"postcondition #{j} cannot be evaluated on exit at line {rec.line}: {u}")
-                    res.obls.append(Obl(f"{qual}:post[{j}@{rec.line}#{i}]", "post", ex.ax + rst.pc, g, qual, rec.line, p))
+                    o = Obl(f"{qual}:post[{j}@{rec.line}#{i}]", "post", ex.ax + rst.pc, g, qual, rec.line, p)
+                    o.extra = list(proved)
+                    res.obls.append(o)
+                    proved = proved + [g]
                 for exc, cond in c.raises.items():
                     g = raise_cond(cond)
                     res.obls.append(Obl(f"{qual}:no-raise[{exc}@{rec.line}#{i}]", "raises", ex.ax + rst.pc, z3.Not(g), qual, rec.line,
